@@ -1,4 +1,4 @@
-import PQ.Model.Iter
+import PQ.Model.Ops
 /-!
 # Line-protocol driver (mirror mode)
 
@@ -13,10 +13,6 @@ then a `SUMMARY` line.  No imports outside the model: links natively.
 -/
 namespace PQ.Driver
 open PQ
-
-inductive Kind where
-  | pq | dpq
-  deriving DecidableEq, Repr, Inhabited
 
 abbrev Entry := Item × Int
 
@@ -227,28 +223,42 @@ def buildOther (kind : Kind) (xs : Array Entry) : R (Store Int) :=
   | .pq => MaxQ.pushAll xs.toList Store.empty
   | .dpq => DQ.pushAll xs.toList Store.empty
 
-/-- run an `iter_mut` program on the map -/
+/-- run an `iter_mut` program on the map.  Programs made of primitive calls only go through the model's own
+`iterMutRun` (the function the theorems are about); programs containing `nth`/`nth_back` are desugared call by call. -/
 def runIterMut (kind : Kind) (prog : Array (XCall × IMWrite Int)) (s : Store Int) : R (Store Int × String) := do
   let n := s.map.size
-  let mut map := s.map
-  let mut out := ""
-  let mut pit := PIterMut.new
-  let mut dit := DIterMut.new n
-  for (c, w) in prog do
-    let o ← match kind with
-      | .pq => do
-        let (it', o) ← xstep (fun it c => pure (PIterMut.step n it c)) pit c
-        pit := it'
-        pure o
-      | .dpq => do
-        let (it', o) ← xstep (DIterMut.step n) dit c
-        dit := it'
-        pure o
-    out := out ++ " " ++ showOut map o
-    match o with
-    | .slot (some i) => map := IMap.applyWrite map i w
-    | _ => pure ()
-  pure ({ s with map := map }, out)
+  let prims := prog.toList.filterMap fun (c, w) => match c with | .prim c => some (c, w) | .nth _ _ => none
+  if prims.length == prog.size then
+    -- outputs are shown against the map as it was when each call was made: replay the writes alongside
+    let (outs, m) ← iterMutRun kind n prims PIterMut.new (DIterMut.new n) s.map
+    let mut map := s.map
+    let mut out := ""
+    for (o, (_, w)) in outs.zip prims do
+      out := out ++ " " ++ showOut map o
+      match o with
+      | .slot (some i) => map := IMap.applyWrite map i w
+      | _ => pure ()
+    pure ({ s with map := m }, out)
+  else
+    let mut map := s.map
+    let mut out := ""
+    let mut pit := PIterMut.new
+    let mut dit := DIterMut.new n
+    for (c, w) in prog do
+      let o ← match kind with
+        | .pq => do
+          let (it', o) ← xstep (fun it c => pure (PIterMut.step n it c)) pit c
+          pit := it'
+          pure o
+        | .dpq => do
+          let (it', o) ← xstep (DIterMut.step n) dit c
+          dit := it'
+          pure o
+      out := out ++ " " ++ showOut map o
+      match o with
+      | .slot (some i) => map := IMap.applyWrite map i w
+      | _ => pure ()
+    pure ({ s with map := map }, out)
 
 def runCursor (m : IMap Int) (calls : Array XCall) : String := Id.run do
   let mut c := Cursor.new m.size
